@@ -35,8 +35,9 @@ func init() {
 	for o := 0x00; o <= 0x60; o++ {
 		modelled[o] = o != 0x50
 	}
-	for _, o := range []int{opNOP, opJMP, opJMPIF, opJMPIFNOT, opCALL, opRET, opDCALL, opDUPFROMALT, opTOALT, opFROMALT, opXDROP, opXSWAP, opXTUCK, opDEPTH, opDROP,
-		opDUP, opNIP, opOVER, opPICK, opROLL, opROT, opSWAP, opTUCK, opCAT, opSUBSTR, opLEFT, opRIGHT, opSIZE, opEQUAL, opINC, opDEC, opNOT, opADD, opSUB, opLT, opGT,
+	for _, o := range []int{opNOP, opJMP, opJMPIF, opJMPIFNOT, opCALL, opRET, opSYSCALL, opDCALL, opDUPFROMALT, opTOALT, opFROMALT, opXDROP, opXSWAP, opXTUCK, opDEPTH, opDROP,
+		opDUP, opNIP, opOVER, opPICK, opROLL, opROT, opSWAP, opTUCK, opCAT, opSUBSTR, opLEFT, opRIGHT, opSIZE, opEQUAL,
+		0x83, 0x84, 0x85, 0x86, 0x8B, 0x8C, 0x8D, 0x8F, 0x90, 0x91, 0x92, 0x93, 0x94, 0x95, 0x96, 0x97, 0x98, 0x99, 0x9A, 0x9B, 0x9C, 0x9E, 0x9F, 0xA0, 0xA1, 0xA2, 0xA3, 0xA4, 0xA5,
 		opARRAYSIZE, opPACK, opUNPACK, opPICKITEM, opSETITEM, opNEWARRAY, opNEWSTRUCT, opNEWMAP, opAPPEND, opREVERSE, opREMOVE, opHASKEY, opKEYS, opVALUES, opTHROW, opTHROWIFNOT} {
 		modelled[o] = true
 	}
@@ -44,12 +45,15 @@ func init() {
 
 // stack positions (0 = top) an opcode converts to an integer: Model/NeoExec.numericOperands
 func numericOperands(op byte) []int64 {
-	switch op {
-	case opXDROP, opXSWAP, opXTUCK, opPICK, opROLL, opLEFT, opRIGHT, opPACK, opNEWARRAY, opNEWSTRUCT, opDCALL, opPICKITEM, opREMOVE, opINC, opDEC:
+	switch {
+	case op == opXDROP, op == opXSWAP, op == opXTUCK, op == opPICK, op == opROLL, op == opLEFT, op == opRIGHT, op == opPACK, op == opNEWARRAY, op == opNEWSTRUCT,
+		op == opDCALL, op == opPICKITEM, op == opREMOVE, op == 0x83, op == 0x8B, op == 0x8C, op == 0x8D, op == 0x8F, op == 0x90, op == 0x92:
 		return []int64{0}
-	case opSUBSTR, opADD, opSUB, opLT, opGT:
+	case op == opSUBSTR, op == 0x84, op == 0x85, op == 0x86, op >= 0x93 && op <= 0x99, op == 0x9C, op >= 0x9E && op <= 0xA4:
 		return []int64{0, 1}
-	case opSETITEM:
+	case op == 0xA5:
+		return []int64{0, 1, 2}
+	case op == opSETITEM:
 		return []int64{1}
 	}
 	return nil
@@ -145,7 +149,7 @@ func (d *dumper) val(v vmt.VmValue, depth int) {
 	}
 }
 
-func dumpStacks(e *vm.Executor) (string, bool) {
+func dumpStacks(e *vm.Executor, notes int) (string, bool) {
 	d := &dumper{ids: map[unsafe.Pointer]int{}}
 	d.sb.WriteString("halt e=[")
 	for i := 0; i < e.EvalStack.Count(); i++ {
@@ -163,8 +167,80 @@ func dumpStacks(e *vm.Executor) (string, bool) {
 		}
 		d.val(v, 0)
 	}
-	d.sb.WriteString("]")
+	d.sb.WriteString("] n=" + strconv.Itoa(notes))
 	return d.sb.String(), d.bad
+}
+
+// a map with two or more entries reachable from v (through array / struct elements and map values): Model/NeoExec.hasMultiMap
+func hasMultiMap(v vmt.VmValue) bool {
+	seen := map[unsafe.Pointer]bool{}
+	work := []vmt.VmValue{v}
+	for len(work) > 0 {
+		x := work[len(work)-1]
+		work = work[:len(work)-1]
+		switch x.GetType() {
+		case vmt.ArrayType:
+			a, _ := x.AsArrayValue()
+			if !seen[unsafe.Pointer(a)] {
+				seen[unsafe.Pointer(a)] = true
+				work = append(work, a.Data...)
+			}
+		case vmt.StructType:
+			a, _ := x.AsStructValue()
+			if !seen[unsafe.Pointer(a)] {
+				seen[unsafe.Pointer(a)] = true
+				work = append(work, a.Data...)
+			}
+		case vmt.MapType:
+			m, _ := x.AsMapValue()
+			if !seen[unsafe.Pointer(m)] {
+				seen[unsafe.Pointer(m)] = true
+				if len(m.Data) >= 2 {
+					return true
+				}
+				for _, e := range m.Data {
+					work = append(work, e[1])
+				}
+			}
+		}
+	}
+	return false
+}
+
+var modelledSyscalls = map[string]bool{nvm.RUNTIME_SERIALIZE_NAME: true, nvm.RUNTIME_DESERIALIZE_NAME: true, nvm.RUNTIME_NOTIFY_NAME: true}
+
+// syscallOutsideModel: the rules of Model/NeoExec.opSyscall for `unmod`, evaluated on the code behind the SYSCALL opcode
+func syscallOutsideModel(e *vm.Executor) bool {
+	code := e.Context.Code
+	pos := e.Context.GetInstructionPointer()
+	fb := 0
+	if pos < len(code) {
+		fb = int(code[pos])
+		pos++
+	}
+	if fb >= 0xFD {
+		return true
+	}
+	if pos+fb > len(code) || pos >= len(code) {
+		return false // short read or nothing left (Read reports EOF even for zero bytes): the real code faults
+	}
+	name := string(code[pos : pos+fb])
+	if !modelledSyscalls[name] {
+		return true
+	}
+	if name == nvm.RUNTIME_DESERIALIZE_NAME { // Model/NeoExec.DESER_MODEL_LIMIT
+		if v, err := e.EvalStack.Peek(0); err == nil {
+			if b, err := v.AsBytes(); err == nil && len(b) > 4096 {
+				return true
+			}
+		}
+	}
+	if name == nvm.RUNTIME_SERIALIZE_NAME {
+		if v, err := e.EvalStack.Peek(0); err == nil && hasMultiMap(v) {
+			return true
+		}
+	}
+	return false
 }
 
 func execX(fs, hexcode string) wres {
@@ -173,7 +249,13 @@ func execX(fs, hexcode string) wres {
 	if len(code) == 0 {
 		return wres{Out: "fault", Kind: "X-empty"}
 	}
+	wrapSyscalls()
 	e := vm.NewExecutor(code, feat)
+	// the service around the executor, for SYSCALL: System.Runtime.Serialize / Deserialize / Notify need nothing but the engine, the current
+	// context and the notification list
+	sc := &smartcontract.SmartContract{Config: &smartcontract.Config{}, GasTable: ledgerkit.GasTable(), Gas: 1 << 60}
+	sc.PushContext(&scontext.Context{ContractAddress: common.AddressFromVmCode(code), Code: code})
+	svc := &nvm.NeoVmService{ContextRef: sc, GasTable: sc.GasTable, Code: code, Engine: e, Height: 1}
 	steps := 0
 	seen := map[byte]bool{}
 	key := func() string {
@@ -207,25 +289,43 @@ func execX(fs, hexcode string) wres {
 		if longNumeric(e, byte(op)) {
 			return wres{Out: "unmodelled", Kind: "X-unmodelled-longint", Key: ""}
 		}
-		if op == opEQUAL { // EQUAL on two structs is reflect.DeepEqual (Go library code): outside the model
+		steps++
+		seen[byte(op)] = true
+		if op == opEQUAL {
 			a, e1 := e.EvalStack.Peek(0)
 			b, e2 := e.EvalStack.Peek(1)
 			if e1 == nil && e2 == nil && a.GetType() == vmt.StructType && b.GetType() == vmt.StructType {
-				return wres{Out: "unmodelled", Kind: "X-unmodelled-deepequal", Key: ""}
+				seen[0xFE] = true // reflect.DeepEqual
 			}
 		}
-		steps++
-		seen[byte(op)] = true
+		if op == opSYSCALL {
+			if syscallOutsideModel(e) {
+				return wres{Out: "unmodelled", Kind: "X-unmodelled-syscall", Key: ""}
+			}
+			lastSys = ""
+			if err := svc.SystemCall(e); err != nil {
+				return wres{Out: "fault", Kind: "X-fault-sys-" + lastSys, Key: key() + "fs" + lastSys}
+			}
+			seen[0xFF] = true
+			continue
+		}
 		state, err := e.ExecuteOp(op, e.Context)
 		if err != nil || state == vm.FAULT {
 			return wres{Out: "fault", Kind: fmt.Sprintf("X-fault-%02x", byte(op)), Key: key() + "f" + fmt.Sprintf("%02x", byte(op))}
 		}
 	}
-	out, bad := dumpStacks(e)
+	out, bad := dumpStacks(e, len(svc.Notifications))
 	if bad {
 		return wres{Out: "toodeep", Kind: "X-toodeep"}
 	}
-	return wres{Out: out, Kind: "X-halt", Key: key()}
+	kind := "X-halt"
+	if seen[0xFF] {
+		kind += "-sys"
+	}
+	if seen[0xFE] {
+		kind += "-deepequal"
+	}
+	return wres{Out: out, Kind: kind, Key: key()}
 }
 
 // ---------------------------------------------------------------- shape of a VM value (notes for the crash classifier)
